@@ -579,9 +579,39 @@ func ruleC06Dispatch(r *Run) {
 		return
 	}
 	nf := callsToName(h404, "net/http.NotFound")
+	for _, c := range callsToName(h404, "net/http.Error") {
+		// http.NotFound spelled out: http.Error(w, text, 404)
+		if code, ok := constInt(c.Common().Args[2]); ok && code == 404 {
+			nf = append(nf, c)
+		}
+	}
 	r.Check(rule, "internal404Handler", h404.Pos(), len(nf) == 1, "the default not-found handler answers through http.NotFound (404)")
 	// 405: sort before Allow header; 200 iff OPTIONS else 405
 	sorts := callsToName(h405, "sort.Strings")
+	sortedArg := func(c ssa.CallInstruction) ssa.Value { return c.Common().Args[0] }
+	if len(sorts) == 0 {
+		// equivalent spellings: slices.Sort(x), sort.Sort(sort.StringSlice(x)), sort.Stable(...)
+		for _, c := range callsIn(h405, func(c ssa.CallInstruction) bool {
+			n := calleeName(c)
+			return n == "sort.Sort" || n == "sort.Stable" || strings.HasPrefix(n, "slices.Sort")
+		}) {
+			sorts = append(sorts, c)
+		}
+		sortedArg = func(c ssa.CallInstruction) ssa.Value {
+			a := c.Common().Args[0]
+			for {
+				switch x := a.(type) {
+				case *ssa.MakeInterface:
+					a = x.X
+					continue
+				case *ssa.ChangeType:
+					a = x.X
+					continue
+				}
+				return a
+			}
+		}
+	}
 	var allowSet ssa.Instruction
 	for _, c := range callsIn(h405, func(c ssa.CallInstruction) bool {
 		if sc := staticCallee(c); sc != nil && FuncName(sc) == "(*Context).SetHeader" {
@@ -598,12 +628,12 @@ func ruleC06Dispatch(r *Run) {
 		// the header value is the joined sorted slice
 		jv := allowSet.(*ssa.Call).Call.Args[2]
 		okJoin := false
-		if jc, ok := jv.(*ssa.Call); ok && calleeName(jc) == "strings.Join" && jc.Call.Args[0] == sorts[0].Common().Args[0] {
+		if jc, ok := jv.(*ssa.Call); ok && calleeName(jc) == "strings.Join" && jc.Call.Args[0] == sortedArg(sorts[0]) {
 			okJoin = true
 		}
 		r.Check(rule, "internal405Handler:Allow value", w.InstrPos(allowSet), okJoin, "Allow = the sorted allowed set, joined")
 		// the set comes from the context key
-		src := sorts[0].Common().Args[0]
+		src := sortedArg(sorts[0])
 		okSrc := strings.Contains(canon(src), "_allowedMethods") || func() bool {
 			if ta, ok := src.(*ssa.TypeAssert); ok {
 				if c, ok := ta.X.(*ssa.Call); ok && len(c.Call.Args) == 2 {
